@@ -86,6 +86,15 @@ func (x *Exec) autoDeref(env *Env, v Val) Val {
 	if iv, ok := v.(*IfaceVal); ok {
 		return x.autoDeref(env, iv.Dyn)
 	}
+	if mr, ok := v.(*MapRef); ok {
+		// a Go map: its current content
+		if cur, ok := env.memory()[mr.Obj]; ok {
+			return cur
+		}
+		if cur, ok := env.st.mem[mr.Obj]; ok {
+			return cur
+		}
+	}
 	return v
 }
 
@@ -854,6 +863,15 @@ func (x *Exec) evalCall(env *Env, e *Expr) (Val, error) {
 			return UF(e.Args[0].Str, SStr, as...), nil
 		}
 		return UF(e.Args[0].Str, SBytes, as...), nil
+	case "itseqof": // itseqof(family): a term of the sort of the key sequence of an iterator over that family (sort sample for "uses")
+		if len(e.Args) != 1 || e.Args[0].Kind != "id" {
+			return nil, fmt.Errorf("itseqof(family)")
+		}
+		fam := x.prog.famByName[e.Args[0].Name]
+		if fam == nil {
+			return nil, fmt.Errorf("itseqof: unknown family %s", e.Args[0].Name)
+		}
+		return ZeroOf(ArraySort(SInt, fam.KeySort)), nil
 	case "coinsof": // coinsof(list): the sdk.Coins value of a []sdk.Coin list (what sdk.NewCoins(list...) returns)
 		if err := need(1); err != nil {
 			return nil, err
@@ -963,6 +981,25 @@ func (x *Exec) contractEnv(st *State, fn *ssa.Function, c *Contract, args []Val)
 	for i, p := range fn.Params {
 		if i < len(args) {
 			env.vars[p.Name()] = args[i]
+			// an argument list known element-wise (variadic call, slice literal): the contract sees the slice value
+			if gs, ok := args[i].(*GoSlice); ok {
+				if want := SortOf(types.Unalias(p.Type())); want != nil && isSliceSort(want) {
+					es := want.Fields[1].Sort.Elem
+					arr := ZeroOf(want.Fields[1].Sort)
+					okAll := true
+					for j, e := range gs.Elems {
+						et, isT := e.(*Term)
+						if !isT || et.Sort != es {
+							okAll = false
+							break
+						}
+						arr = Store(arr, IntLit(int64(j)), et)
+					}
+					if okAll {
+						env.vars[p.Name()] = Con(want, IntLit(int64(len(gs.Elems))), arr)
+					}
+				}
+			}
 		}
 	}
 	return env
